@@ -128,6 +128,25 @@ for _k, _v in ROUND7.items():
     _i = _t.rfind(" Sampling, not proof")
     CLAIMED[_k]["text"] = _t[:_i] + f" Round 7 (DESIGN §13.7): {_v}." + _t[_i:]
 
+ROUND8 = {
+ "C15": "a second instance of a class that holds its function offered after the run, converged coupler iterations that still move every row a little",
+ "C06": None,
+ "C04": "more than ten stored grids (three-ring cores, a height of its own in every assembly), origins that are not binary fractions, the material's composition in the digest",
+ "C05": None,
+ "C14": "histories on reactors read back from a database, a removed assembly added back without a location",
+ "C16": "a number that becomes a link inside a keeping scope, the parameter without a default",
+ "C01": "traversal variants that hand out materials, with predicates",
+ "C12": "low-level thermal steps that re-temper only some components",
+ "C13": "block-by-block values in the quantity a solver recomputes with edge assemblies present",
+ "C02": "overlapping entries in one selection, a Void gap of negative volume",
+ "C03": "paths through the exact zero of the expansion correlation, unshaped components",
+}
+for _k, _v in ROUND8.items():
+    if _v:
+        _t = CLAIMED[_k]["text"]
+        _i = _t.rfind(" Sampling, not proof")
+        CLAIMED[_k]["text"] = _t[:_i] + f" Round 8 (DESIGN §13.8): {_v}." + _t[_i:]
+
 PENDING_IDS = ["C01", "C02", "C03", "C04", "C05", "C12", "C13", "C14", "C16"]
 PENDING = {p: "check not built yet in this session (claimed in DESIGN.md; will move to checks when its oracle runs clean)" for p in PENDING_IDS if p not in CLAIMED}
 
